@@ -545,3 +545,71 @@ def seam_and_corner_pairs(rng, gamma, n, with_addr=False):
             e1, e2 = e2, e1
         out.append((e1, e2, kind))
     return out
+
+
+def regrid_iterations(curve_name, n_iter=2, sigma=2, with_m0=None):
+    """The `--refinement uniform --grading` flow of example.py: the operators are created ONCE on the first mesh; in every
+    iteration the mesh is re-created by hand as a graded tensor mesh (a NEW MeshParametrized object with user space and time
+    grids, element numbering starts again at 0) and its elements are handed to the long-lived operators.
+    Yields (k, mesh_k, elems_k, old, fresh): `old` = dict(SL=..., SLx=..., M0=...) created on the first mesh, `fresh` the same
+    operators created on mesh_k."""
+    import src.parametrization as P
+    from src.mesh import MeshParametrized
+    from src.single_layer import SingleLayerOperator
+    from src.initial_potential import InitialOperator
+    import src.initial_mesh as IM
+    gamma = getattr(P, curve_name)()
+
+    def make_ops(mesh):
+        with contextlib.redirect_stdout(io.StringIO()):
+            d = dict(SL=SingleLayerOperator(mesh), SLx=SingleLayerOperator(mesh, pw_exact=True))
+            if with_m0 is not None:
+                init = {'UnitSquare': IM.UnitSquareBoundaryRefined, 'PiSquare': IM.PiSquareBoundaryRefined,
+                        'LShape': IM.LShapeBoundaryRefined}[curve_name]
+                d['M0'] = InitialOperator(bdr_mesh=mesh, u0=with_m0, initial_mesh=init)
+        return d
+    with contextlib.redirect_stdout(io.StringIO()):
+        mesh = MeshParametrized(gamma)
+    old = make_ops(mesh)
+    Lg = float(gamma.gamma_length)
+    glen = int(round(Lg)) if abs(Lg - round(Lg)) < 1e-12 else 4      # curves of non-integer length: 4 panels per unit of refinement
+    for k in range(n_iter):
+        with contextlib.redirect_stdout(io.StringIO()):
+            if k > 0:
+                h_x, h_t = 1 / 2**k, 1 / 2**(sigma * k)
+                N_x, N_t = glen * round(1 / h_x), round(1 / h_t)
+                xs = [Lg * j / N_x for j in range(N_x)] + [gamma.pw_start[-1]] if glen != round(Lg) or abs(Lg - round(Lg)) >= 1e-12 else \
+                    [glen * j / N_x for j in range(N_x + 1)]
+                mesh = MeshParametrized(gamma, initial_space_mesh=xs,
+                                        initial_time_mesh=[j / N_t for j in range(N_t + 1)])
+        elems = list(mesh.leaf_elements)
+        yield k, mesh, elems, old, (old if k == 0 else make_ops(mesh))
+
+
+def cache_order_probe(make, call, elems, rng, tmp_root='/tmp'):
+    """One cache directory, the same SET of elements requested in different ORDERS (leaf order, latest slab first, shuffled),
+    each request twice (cold / warm), by operators created by `make(cache_dir)`; `call(op, lst)` returns the array.
+    Returns a list of (order name, phase, result, list) for the caller to compare with its own per-element evaluation."""
+    import shutil
+    import tempfile
+    d = tempfile.mkdtemp(prefix='cache_order_', dir=tmp_root)
+    out = []
+    try:
+        orders = [('leaf-order', list(elems)),
+                  ('latest-slab-first', sorted(elems, key=lambda e: (-float(e.time_interval[0]), float(e.space_interval[0])))),
+                  ('reversed', list(reversed(elems)))]
+        sh = list(elems)
+        rng.shuffle(sh)
+        orders.append(('shuffled', sh))
+        op = make(d)
+        for name, lst in orders:
+            for phase in ('cold', 'warm'):
+                with contextlib.redirect_stdout(io.StringIO()):
+                    out.append((name, phase, np.array(call(op, lst), dtype=float), lst))
+        # a second operator object against the same directory (a later run)
+        op2 = make(d)
+        with contextlib.redirect_stdout(io.StringIO()):
+            out.append(('latest-slab-first', 'later-run', np.array(call(op2, orders[1][1]), dtype=float), orders[1][1]))
+    finally:
+        shutil.rmtree(d, ignore_errors=True)
+    return out
